@@ -164,3 +164,12 @@ M("c13-irfft-no-length", "C13", K, "        conv = np.fft.irfft(data_fft * np.ff
 M("c13-argmax-abs", "C13", FI, "            self._convs.argmax(),", "            np.abs(self._convs).argmax(),", "peak taken at the largest absolute response")
 M("c13-pad-zero-not-circular", "C13", K, "        result[i] = arr[i % n]\n    return result", "        result[i] = arr[i] if i < n else 0\n    return result", "data zero-padded instead of circularly continued")
 M("c13-snr-first-template", "C13", FI, "        self._best_snr = self._convs[self._itemp, self._peak_bin]", "        self._best_snr = self._convs[min(self._itemp, len(self.temp_bank) - 2), self._peak_bin]", "")
+
+# ---- C14
+M("c14-even-pad", "C14", ST, "        (window // 2, window // 2) if window % 2 else (window // 2, window // 2 - 1)", "        (window // 2, window // 2) if window % 2 else (window // 2 - 1, window // 2 - 1)", "even windows padded one short on the left: output shifted and one sample short")
+M("c14-reflect-not-symmetric", "C14", ST, '    padded_ar = np.pad(array, pad_size, "symmetric")', '    padded_ar = np.pad(array, pad_size, "reflect") if array.size > max(pad_size) else np.pad(array, pad_size, "symmetric")')
+M("c14-flat-dims", "C14", K, "            pos = dim2 * i * factor1 + j * factor2", "            pos = dim1 * i * factor1 + j * factor2", "row stride uses dim1: wrong for non-square shapes")
+M("c14-2d-remainder", "C14", ST, "        array[: new_dim1 * factor1, : new_dim2 * factor2].reshape(new_shape),", "        array[dim1 - new_dim1 * factor1 :, : new_dim2 * factor2].reshape(new_shape),", "2-D decimation drops the leading instead of the trailing remainder rows")
+M("c14-detrend-xsq", "C14", K, "    x_sq_sum = m * (m - 1) * (2 * m - 1) / 6", "    x_sq_sum = m * (m - 1) * (2 * m + 1) / 6")
+M("c14-median-1d-group", "C14", ST, "        return np.median(array[:nsamps_new].reshape(-1, factor), axis=1)", "        return np.median(array[array.size - nsamps_new :].reshape(-1, factor), axis=1)")
+M("c14-deredden-window", "C14", T, "        window_bins = round(window / self.header.tsamp)", "        window_bins = int(window / self.header.tsamp)", "window truncated instead of rounded (differs when window/tsamp evaluates just below an integer)")
